@@ -32,6 +32,9 @@ WORKLOADS = [
     "corrfunc_file_fresh", "corrfunc_file_over_old", "corrdata_files_fresh", "corrdata_files_over_old",
     "histdata_files_over_old", "config_file_fresh", "config_file_over_old", "corrdata_files_dotted_over_old",
     "histdata_files_globchars_over_old",
+    # older results of which only some files are left (an earlier interrupted write, a user tidying up): mask = .dat .smp .cov
+    "corrdata_files_over_partial:011", "corrdata_files_over_partial:010", "corrdata_files_over_partial:101",
+    "corrdata_files_over_partial:110", "corrdata_files_over_partial:001", "histdata_files_over_partial:011",
 ]
 
 
@@ -117,7 +120,7 @@ class C08(Check):
         if tier == "quick":
             for w in ("create_fresh", "create_overwrite", "create_buffered", "trees_fresh", "trees_other_edges",
                       "trees_forced_other_edges", "measure_over_cached", "corrfunc_file_fresh", "corrdata_files_dotted_over_old",
-                      "config_file_over_old"):
+                      "config_file_over_old", "corrdata_files_over_partial:011"):
                 for s in range(4):
                     yield dict(workload=w, shard=s, of=4, stride=1, seed=seed)
             for s in range(2):
@@ -283,11 +286,24 @@ class C08(Check):
                 over_old = bool(i % 2)
                 pid = launch(over_old)
                 time.sleep(float(rng.uniform(0.0, duration * 1.05)))
+                if i % 4 == 3:
+                    # only the main process dies (OOM killer, kill -9 <pid>): its helper processes live on for a
+                    # while and may still write; they get a few seconds, then the rest of the group is removed
+                    try:
+                        os.kill(pid, signal.SIGKILL)
+                    except ProcessLookupError:
+                        pass
+                    os.waitpid(pid, 0)
+                    time.sleep(3.5)
+                    counters["main_only_kills"] = counters.get("main_only_kills", 0) + 1
                 try:
                     os.killpg(pid, signal.SIGKILL)
                 except ProcessLookupError:
                     pass
-                os.waitpid(pid, 0)
+                try:
+                    os.waitpid(pid, 0)
+                except ChildProcessError:
+                    pass
                 time.sleep(0.02)
                 counters["crash_points_injected"] = counters.get("crash_points_injected", 0) + 1
                 dig = tree_digest(state)
@@ -499,7 +515,8 @@ class C08(Check):
             r = np.random.default_rng(seed)
             return cls(binning, r.normal(0, 1, 3), r.normal(0, 1, (5, 3)))
 
-        over_old = wname.endswith("over_old")
+        over_old = wname.endswith("over_old") or "over_partial" in wname
+        partial_mask = wname.split(":")[1] if "over_partial" in wname else None
         if wname.startswith("corrfunc_file"):
             new, old = mk_corrfunc(1), mk_corrfunc(2)
             path = state / "result.hdf"
@@ -531,6 +548,10 @@ class C08(Check):
         def prepare():
             if over_old:
                 write(old)
+            if partial_mask:
+                for keep, suffix in zip(partial_mask, (".dat", ".smp", ".cov")):
+                    if keep == "0":
+                        path.with_suffix(suffix).unlink()
 
         def workload():
             write(new)
@@ -539,7 +560,9 @@ class C08(Check):
             return dig(read(pdir))
 
         def judge(pname, value, refs):
-            ok = [refs["new"]] + ([refs["old"]] if over_old else [])
+            ok = [refs["new"]] + ([refs["old"]] if over_old and not partial_mask else [])
+            if partial_mask and refs.get("prior") is not None:
+                ok.append(refs["prior"])  # "never started": what the prior state itself reads as, if it reads at all
             return None if value in ok else "object-neither-old-nor-new"
 
         def references():
@@ -556,6 +579,19 @@ class C08(Check):
                     else:
                         obj.to_file(d / saved.name)
                     out[tag] = dig(read(d))
+                finally:
+                    shutil.rmtree(d)
+            if partial_mask:
+                d = Path(tempfile.mkdtemp(dir=state.parent))
+                try:
+                    old.to_files(d / path.name)
+                    for keep, suffix in zip(partial_mask, (".dat", ".smp", ".cov")):
+                        if keep == "0":
+                            (d / path.name).with_suffix(suffix).unlink()
+                    try:
+                        out["prior"] = dig(read(d))
+                    except Exception:
+                        out["prior"] = None
                 finally:
                     shutil.rmtree(d)
             return out
